@@ -644,8 +644,13 @@ def _hist_case(ctx, level, inputs, kw, k, op0=None, tol=None, validate_every=13)
     known = {}
     ids = _known_ids()
     for fid, pred in KNOWN_REGIONS.get(level, {}).items():
-        if fid in ids and pred(names, obs[j][0], ops, kw):
-            known.setdefault(obs[j][0], {})[fid] = z3.BoolVal(True)
+        if fid not in ids:
+            continue                      # only status "known" ids reach here: a fixed finding suppresses nothing
+        reg = pred(names, obs[j][0], ops, kw, inputs)
+        if reg is True:
+            reg = z3.BoolVal(True)
+        if reg is not False and reg is not None:
+            known.setdefault(obs[j][0], {})[fid] = reg
     kw2 = dict(kw)
     kw2["level"] = level
     if obs[j][0].endswith("is_uniform"):
@@ -746,8 +751,8 @@ def _stale_cache_region(attr):
 
 
 KNOWN_REGIONS["vis"] = {
-    "stale-cache-after-derivation": lambda names, o, ops, kw: any(_stale_cache_region(a)(names, o, ops, kw) for a in ("amplitudes", "phases")),
-    "visibilities-ordered-1d-not-rederived": lambda names, o, ops, kw: o == "d.ordered_1d (own contents)",
+    "stale-cache-after-derivation": lambda names, o, ops, kw, inp=None: any(_stale_cache_region(a)(names, o, ops, kw) for a in ("amplitudes", "phases")),
+    "visibilities-ordered-1d-not-rederived": lambda names, o, ops, kw, inp=None: o == "d.ordered_1d (own contents)",
 }
 
 
@@ -932,8 +937,8 @@ def _grid_rewrap_region(names, obs_name, kw):
 
 LEVELS["grid"] = level_grid
 KNOWN_REGIONS["grid"] = {
-    "stale-cache-after-derivation": lambda names, o, ops, kw: _stale_cache_region("is_uniform")(names, o, ops, kw),
-    "grid-native-input-masked-in-place": lambda names, o, ops, kw: _grid_rewrap_region(names, o, kw),
+    "stale-cache-after-derivation": lambda names, o, ops, kw, inp=None: _stale_cache_region("is_uniform")(names, o, ops, kw),
+    "grid-native-input-masked-in-place": lambda names, o, ops, kw, inp=None: _grid_rewrap_region(names, o, kw),
 }
 
 
@@ -982,7 +987,7 @@ def level_mask(inp, H, W, full=False):
 
 LEVELS["mask"] = level_mask
 KNOWN_REGIONS["mask"] = {
-    "stale-cache-after-derivation": lambda names, o, ops, kw: _stale_cache_region("circular_radius")(names, o, ops, kw),
+    "stale-cache-after-derivation": lambda names, o, ops, kw, inp=None: _stale_cache_region("circular_radius")(names, o, ops, kw),
 }
 
 
@@ -1069,7 +1074,7 @@ def level_imaging(inp, mask_id, full=False, snr=False):
     return build, ops, obs
 
 
-def _stale_dataset_region(names, obs_name, ops, kw):
+def _stale_dataset_region(names, obs_name, ops, kw, inp=None):
     """cached `grids` / `convolver` of a dataset travel into the shallow copy made by trimmed_after_convolution_from"""
     key = {"d.grids.uniform": "grids", "d.grids.blurring": "grids", "d.convolver": "convolver"}.get(obs_name)
     if key is None:
@@ -1234,15 +1239,39 @@ def level_inversion(inp, mask_id, w_tilde, full=False):
     return build, ops, obs
 
 
-def _mv_region(names, obs_name, ops, kw):
-    """a MapperValued query with a mesh_pixel_mask ran before the observation (values_masked / mapped_reconstructed_image_from
-    zero the caller's values and the mapper's cached mapping matrix in place), or the observation is such a query itself
-    compared with its own first-call value"""
-    return any(nm.startswith("mv.") or nm.startswith("MapperValued(") for nm in names)
+PIX_MASK_IDX = (0, 4)           # the masked mesh pixels of the valued mapper `mv` (see pix_mask in level_inversion)
+
+
+def _nonzero_any(terms):
+    ts = [V.to_real_term(t) != 0 for t in terms if V.is_sym(t)]
+    if any((not V.is_sym(t)) and float(t) != 0.0 for t in terms):
+        return z3.BoolVal(True)
+    return z3.Or(*ts) if ts else z3.BoolVal(False)
+
+
+def _values_masked_region(names, obs_name, ops, kw, inp=None):
+    """MapperValued.values_masked zeroes the caller's `values` array in place.  Region (a z3 term over the payload):
+    a mesh_pixel_mask is given and some masked entry of the values array is non-zero - outside of it the in-place write
+    changes nothing.  Two caller arrays exist on this level: the symbolic `vals` passed to `mv` (observed directly), and
+    the inversion's cached `reconstruction` passed to MapperValued(mapper, inv.reconstruction, mask) - there the write
+    shows in inv.reconstruction and in the quantities computed from it.  (The mapper's mapping matrix is no longer
+    covered: that part was fixed by e5dd06f.)"""
+    if obs_name == "mv.values (caller array)":
+        if any(nm in ("mv.values_masked", "mv.mapped_reconstructed_image_from") for nm in names):
+            vals = np.asarray(inp["vals"]).reshape(-1)
+            return _nonzero_any([vals[i] for i in PIX_MASK_IDX])
+        return False
+    if obs_name in ("inv.reconstruction", "inv.mapped_reconstructed_data", "inv.mapped_reconstructed_image",
+                    "inv.reconstruction_dict", "inv.data_subtracted_dict"):
+        if any(nm.startswith("MapperValued(mapper, inv.reconstruction)") for nm in names):
+            build, _, _ = LEVELS["inversion"](inp, **kw)
+            rec = np.asarray(hx.unwrap(build()["inv"].reconstruction), dtype=object).reshape(-1)
+            return _nonzero_any([rec[i] for i in PIX_MASK_IDX])
+    return False
 
 
 LEVELS["inversion"] = level_inversion
-KNOWN_REGIONS["inversion"] = {"mapper-valued-masks-in-place": _mv_region}
+KNOWN_REGIONS["inversion"] = {"mapper-valued-values-masked-in-place": _values_masked_region}
 
 
 def case_hist_inversion(ctx, mask_id, w_tilde, k, op0=None, full=False):
